@@ -344,6 +344,17 @@ TRY_BRANCH = ("core::ops::try_trait::Try::branch",)
 FROM_RESIDUAL = ("core::ops::try_trait::FromResidual::from_residual",)
 
 
+DEFAULT_FACTS = [None]
+_DEFAULT_MODEL = [None, None]
+
+
+def _default_model():
+    if _DEFAULT_MODEL[0] is not DEFAULT_FACTS[0]:
+        _DEFAULT_MODEL[0] = DEFAULT_FACTS[0]
+        _DEFAULT_MODEL[1] = combinator_model(DEFAULT_FACTS[0])
+    return _DEFAULT_MODEL[1]
+
+
 class Sccp:
     """Forward propagation of known constants from a seed.
 
@@ -365,6 +376,10 @@ class Sccp:
         self.field_model = field_model
         self.stop_blocks = set(stop_blocks)
         self.removed_edges = set(removed_edges)
+        # without a model of its own a propagation still knows the std combinators that merely re-spell a match
+        # (map_err, unwrap_or, and_then, … over the fact base the check runs on)
+        if call_model is None and DEFAULT_FACTS[0] is not None:
+            call_model = _default_model()
         self.call_model = call_model
         self.mutb = _mut_borrowed_locals(fn)
         self.env_in = {}
